@@ -694,7 +694,7 @@ pub fn run(ctx: &Ctx) -> anyhow::Result<Report> {
 	let _quiet = QuietStderr::new();
 	let mut r = Report::new("C10", "C10.Run");
 	let mut rng = Rng::new(ctx.seed);
-	r.rule = "remove_dummy: (1) level tables, exhaustive: every name kind of a level (placeholder, net/minecraft/unmapped/C_…, pkg/C_…, nested Outer$C_…, prefix in the middle, name ending with the prefix, prefix without the underscore, real, absent, bare prefix, other case, <init>, <clinit>, <init>x, x<init>, other level's prefix) x comment yes/no, against representative parents and children (none / removed / kept by comment / kept by name), for chosen namespace = second (source names real or placeholder-like) and = first; (2) the product of the four levels for single-path trees of depth 4: a random sample over all kinds (quick 1000, thorough 30000 of 218 842) and, thorough only, the full product over the reduced kind sets (8 190); (3) random bushy trees from mapmodel::gen_mappings with 2-4 namespaces pushed towards placeholder names, every namespace chosen in turn, plus an unknown and a duplicated namespace name. insert_dummy: level tables 9 name actions (None, Add, Remove(old), Remove(placeholder), Edit, Edit(same,same), …) x 5 comment actions x representative children and parents, 12 class-key shapes for the simple-inner-name placeholder, parameter indices up to usize::MAX; random bushy diffs and a shuffled copy. Non-trivial: the tree is non-empty and the call returned Ok; distinct by the Gallina text of input + namespace.".into();
+	r.rule = "remove_dummy: (1) level tables, exhaustive: every name kind of a level (placeholder, net/minecraft/unmapped/C_…, pkg/C_…, nested Outer$C_…, prefix in the middle, name ending with the prefix, prefix without the underscore, real, absent, bare prefix, other case, <init>, <clinit>, <init>x, x<init>, other level's prefix) x comment yes/no, against representative parents and children (none / removed / kept by comment / kept by name), for chosen namespace = second (source names real or placeholder-like) and = first; (2) the product of the four levels for single-path trees of depth 4: a random sample over all kinds (quick 1000, thorough 15000 of 218 842) and, thorough only, the full product over the reduced kind sets (8 190); (3) random bushy trees from mapmodel::gen_mappings with 2-4 namespaces pushed towards placeholder names, every namespace chosen in turn, plus an unknown and a duplicated namespace name. insert_dummy: level tables 9 name actions (None, Add, Remove(old), Remove(placeholder), Edit, Edit(same,same), …) x 5 comment actions x representative children and parents, 12 class-key shapes for the simple-inner-name placeholder, parameter indices up to usize::MAX; random bushy diffs and a shuffled copy. Non-trivial: the tree is non-empty and the call returned Ok; distinct by the Gallina text of input + namespace.".into();
 
 	// decimal printing and inner-class names, on their own
 	for n in [0u64, 1, 9, 10, 11, 99, 100, 101, 255, 256, 999, 1000, 65535, 65536, 4294967295, 4294967296, 9999999999, 10000000000, u64::MAX - 1, u64::MAX] {
@@ -720,10 +720,10 @@ pub fn run(ctx: &Ctx) -> anyhow::Result<Report> {
 	// ---- remove_dummy ----
 	remove_tables(&mut r);
 	if ctx.thorough { remove_product(&mut r, &mut rng, None); r.notes.push("full product of the four levels over the reduced kind sets enumerated (8 190 single-path trees; namespace = second, real source names)".into()); }
-	remove_product(&mut r, &mut rng, Some(if ctx.thorough { 30000 } else { 1000 }));
+	remove_product(&mut r, &mut rng, Some(if ctx.thorough { 15000 } else { 1000 }));
 	r.exhaustive = true;
 
-	let nrand = if ctx.thorough { 4000 } else { 350 };
+	let nrand = if ctx.thorough { 3000 } else { 350 };
 	for k in 0..nrand {
 		let n = 2 + k % 3;
 		let mut cfg = GenCfg::new(n);
@@ -798,7 +798,7 @@ pub fn run(ctx: &Ctx) -> anyhow::Result<Report> {
 			}
 		}
 	}
-	let nrand = if ctx.thorough { 4000 } else { 350 };
+	let nrand = if ctx.thorough { 3000 } else { 350 };
 	for k in 0..nrand {
 		let d = gen_diff(&mut rng, if k % 7 == 0 { 8 } else { 4 });
 		through_insert(&mut r, &d, "random-diff");
